@@ -230,6 +230,7 @@ func init() {
 		}
 		if p.decide(b.Eq(v, b.BV(1, 64))) {
 			p.env.fireTimer(p, fr, ts[0])
+			p.sched.runOthers()
 			return true
 		}
 		return false
